@@ -3,13 +3,40 @@ from shell import c11
 
 ID = "C11"
 LEVEL = "other"
-FUNCTIONS = ["Exchange.__getitem__", "_Allocation.__init__", "Rebalancing.make_trades"]
+FUNCTIONS = ["FutureChain._lead_contract_idx", "Exchange.__getitem__", "_Allocation.__init__", "Rebalancing.make_trades"]
 SHELL = [c11.chains]
 LEVEL_TEXT = ("Kernel: the exchange addresses the book of a key's static hash (C14), allocations are keyed by static hashes, and make_trades "
               "liquidates every held contract absent from the target regardless of the threshold (C12) - so after a rebalance targeting "
               "the chain every other contract of the chain is flat. Bounded (dense) shell: lead resolution at every last-trading instant "
               "+-1 s of the built-in chains for month offsets 0..2 through lead_contract/static_hashing/symbol, and roll scenarios with "
-              "spread, short targets, thresholds and offsets. The bisect-based index arithmetic of _lead_contract_idx is listed as not "
-              "yet decided deductively.")
+              "spread, short targets, thresholds and offsets. _lead_contract_idx (bisect over a strictly increasing list of symbolic length) is "
+              "verified: the position is the first last-trading date strictly later than now, plus the offset; it only moves forward.")
 EXPLANATION = LEVEL_TEXT
-NOT_DEDUCTIVE = ["FutureChain._lead_contract_idx (bisect_right over the last-trading dates) and FutureChain.__init__ (pandas date_range, A5): bounded shell"]
+NOT_DEDUCTIVE = ["FutureChain.__init__ (pandas date_range, A5) and the environment-level roll (a step falls between last trading date and expiry): bounded shell",
+                 "sortedness of the chain's last-trading dates is taken from C19's complete enumeration"]
+import ast, z3
+from pyvc import front, lemma
+
+
+def lemma_resolution(tier):
+    """over the contract of _lead_contract_idx (first_strictly_later): the resolved index never moves backwards in time"""
+    n, j1, j2 = z3.Ints("n j1 j2")
+    t1, t2 = z3.Reals("now1 now2")
+    L = z3.Function("ltd", z3.IntSort(), z3.RealSort())
+    char = lambda j, t: z3.And(0 <= j, j <= n, z3.Implies(j > 0, L(j - 1) <= t), z3.Implies(j < n, t < L(j)))
+    sorted_inst = z3.Implies(z3.And(0 <= j2, j2 < j1 - 1, j1 - 1 < n), L(j2) < L(j1 - 1))      # instance of strict monotonicity (C19)
+    out = [lemma.prove("C11::lemma::lead_only_moves_forward", [char(j1, t1), char(j2, t2), t1 <= t2, sorted_inst], j1 <= j2,
+                       detail="now1 <= now2 => idx(now1) <= idx(now2), from first_strictly_later at both instants and sortedness")]
+    rel = "tradingenv/contracts.py"
+    lc = front.strip(front.find(rel, "FutureChain.lead_contract"))
+    src = ast.unparse(lc)
+    out.append(lemma.check("C11::lemma::lead_contract_indexes_the_resolved_position",
+                           "self._lead_contract_idx(now)" in src and "return self.contracts[idx]" in src and "idx += month" in src,
+                           "FutureChain.lead_contract returns contracts[_lead_contract_idx(now) + month]"))
+    sh = front.strip(front.find(rel, "FutureChain.static_hashing"))
+    out.append(lemma.check("C11::lemma::chain_hashes_to_lead", [ast.dump(x) for x in sh.body] == [ast.dump(ast.parse("return self.lead_contract()").body[0])],
+                           "static_hashing (used by allocations and the exchange) is lead_contract() at the process clock"))
+    return out
+
+
+LEMMAS = [lemma_resolution]
